@@ -1,6 +1,7 @@
 package main
 
 import (
+	"encoding/json"
 	"fmt"
 	"sync"
 
@@ -11,24 +12,25 @@ var allOpTypes = []operation.Type{operation.TypeCreate, operation.TypeUpdate, op
 
 // recUnpub is a recording unpublished-operation store (Put/Delete/DeleteAll/Get) with fault injection.
 type recUnpub struct {
-	mu      sync.Mutex
-	ops     []*operation.AnchoredOperation
-	puts    int
-	deletes int
-	PutErr  func(call int) error
-	DelErr  func(call int) error
+	mu       sync.Mutex
+	ops      []*operation.AnchoredOperation
+	puts     int
+	attempts int
+	deletes  int
+	PutErr   func(call int) error
+	DelErr   func(call int) error
 }
 
 func (s *recUnpub) Put(op *operation.AnchoredOperation) error {
 	s.mu.Lock()
 	defer s.mu.Unlock()
-	s.puts++
+	s.attempts++
 	if s.PutErr != nil {
-		if err := s.PutErr(s.puts); err != nil {
-			s.puts-- // a failed put stores nothing
-			return err
+		if err := s.PutErr(s.attempts); err != nil {
+			return err // a failed put stores nothing
 		}
 	}
+	s.puts++
 	c := *op
 	s.ops = append(s.ops, &c)
 	return nil
@@ -76,3 +78,5 @@ func (s *recUnpub) Get(suffix string) ([]*operation.AnchoredOperation, error) {
 }
 
 func (s *recUnpub) Len() int { s.mu.Lock(); defer s.mu.Unlock(); return len(s.ops) }
+
+func jsonUnmarshal(b []byte, v interface{}) error { return json.Unmarshal(b, v) }
